@@ -21,6 +21,7 @@ import (
 	"strconv"
 	"strings"
 	"sync"
+	"unicode/utf8"
 
 	"rare/pkg/extractor"
 	"rare/pkg/matchers"
@@ -119,9 +120,18 @@ func c12Field(ic bool, pat string, line []byte) string {
 	if g := ctx.GetMatch(0); g != whole {
 		return fmt.Sprintf("seam-disagree GetMatch(0)=%q slice=%q", g, whole)
 	}
+	// offsets_on_char_boundaries / captures_are_utf8, with Go's own utf8.Valid as the oracle: valid
+	// UTF-8 pattern and line => {0} and every capture are valid UTF-8 (no character is cut)
+	allValid := utf8.ValidString(pat) && utf8.Valid(line)
+	if allValid && !utf8.ValidString(whole) {
+		return fmt.Sprintf("impl-cuts-character {0}=%q", whole)
+	}
 	var fs []string
 	for name, i := range d.SubexpNameTable() {
 		t := string(line[r[2*i]:r[2*i+1]])
+		if allValid && !utf8.ValidString(t) {
+			return fmt.Sprintf("impl-cuts-character %q=%q", name, t)
+		}
 		if g := ctx.GetMatch(i); g != t {
 			return fmt.Sprintf("seam-disagree GetMatch(%d)=%q slice=%q", i, g, t)
 		}
@@ -151,6 +161,10 @@ func c12Par(ic bool, pat string, lines [][]byte, rep, k int) string {
 	}
 	d, _ := dissect.CompileEx(pat, ic)
 	fac := matchers.ToFactory(d)
+	// the factory hands out a NEW instance per call (one per worker): two calls, two objects
+	if m1, m2 := fac.CreateInstance(), fac.CreateInstance(); m1 == m2 {
+		return "factory-returned-same-instance"
+	}
 	held := make([][][]int, k)
 	var wg sync.WaitGroup
 	for g := 0; g < k; g++ {
@@ -525,6 +539,12 @@ func c12StatsExt(f []string, st map[string]int) bool {
 			st["field.nomatch"]++
 		case strings.HasPrefix(res, "ok"):
 			st["field.match"]++
+			if pat, line := UnHex(f[2]), UnHex(f[3]); utf8.Valid(pat) && utf8.Valid(line) {
+				st["field.match.validUtf8"]++
+				if len(line) != utf8.RuneCount(line) {
+					st["field.match.validUtf8.multibyte"]++
+				}
+			}
 		case strings.HasPrefix(res, "err"):
 			st["field.compileError"]++
 		}
